@@ -90,11 +90,24 @@ func (c *fnCtx) call(v *ast.CallExpr, pre *[]fnBind, want []string) ([]string, [
 					}
 					return one(x, t)
 				}
-			case "int", "int64", "uint", "uint64":
+			case "int", "int64", "uint":
 				if len(v.Args) == 1 {
 					x, t := c.expr(v.Args[0], pre)
 					if t.isNum() {
 						return one(x, tyInt)
+					}
+				}
+			case "uint64":
+				if len(v.Args) == 1 {
+					x, t := c.expr(v.Args[0], pre)
+					if t.k == "u64" {
+						return one(x, tyU64)
+					}
+					if n, ok := c.constVal(v.Args[0]); ok && n >= 0 {
+						return one(x, tyU64)
+					}
+					if t.isNum() {
+						return one("(go_u64 "+x+")", tyU64)
 					}
 				}
 			case "byte", "uint8":
@@ -121,6 +134,13 @@ func (c *fnCtx) call(v *ast.CallExpr, pre *[]fnBind, want []string) ([]string, [
 		}
 		if id, ok := f.X.(*ast.Ident); ok && id.Obj == nil {
 			switch id.Name + "." + f.Sel.Name {
+			case "bits.LeadingZeros64":
+				if len(v.Args) == 1 {
+					x, xt := c.expr(v.Args[0], pre)
+					if xt.isNum() {
+						return one("(go_lz64 "+x+")", tyInt)
+					}
+				}
 			case "maps.Clone":
 				// a new map with the same entries (nil for nil): the same value
 				if len(v.Args) == 1 {
